@@ -31,14 +31,14 @@ PLAN = {
         'design_ref': 'DESIGN.md 4.2',
     },
     'C03': {
-        'engines': ['verus_units'],
+        'engines': ['verus_units', 'syntactic'],
         'technique': 'Verus postconditions on the extracted handlers of every input observer, over a ghost history of serial-tagged input events (all sequential interleavings = a universally quantified sequence)',
         'level_text': 'for merge, amb, take_until, skip_until, sample, switch_on_next: each handler of each input, from any state reachable for any interleaved history, leaves the downstream trace equal to the operator definition on the extended history and the set of still-registered inputs as defined; "register all observers before subscribing any source" is a skeleton fact',
         'level_note': 'zip/combine_latest/sequence_equal/concat/flat_map have handlers that create closures or subscribe: not extractable, listed as not covered in the evidence; StreamController by contract; sequential',
         'design_ref': 'DESIGN.md 4.3',
     },
     'C04': {
-        'engines': ['verus_units', 'kani'],
+        'engines': ['verus_units', 'kani', 'syntactic'],
         'technique': 'Verus postconditions on every extracted error handler (the same payload value is forwarded as the terminal) + materialize/dematerialize contracts + Kani contracts on the real RxError (clone/downcast identity, same payload object delivered through sink_error)',
         'level_text': 'every non-handling operator under contract forwards the error it received, unchanged, as the only further event; RxError clone/downcast_ref return the original value for all payload values; materialize/dematerialize are proved against their definitions',
         'level_note': 'retry/retry_when/on_error_resume_next resubscribe inside a handler: not extractable; covered only by the bounded conformance harnesses where present',
@@ -57,6 +57,20 @@ PLAN = {
         'level_text': 'each ending path (sink_error, last sink_complete, sink_complete_force, finalize, downstream unsubscribe, re-entrant unsubscribe) is proved to leave every registered upstream observer unsubscribed and the map empty; producer loops are proved to re-check is_subscribed before every emission',
         'level_note': 'bounded in the number of registered upstream observers (<=2); interval/timer threads are C15/C16 (not applicable)',
         'design_ref': 'DESIGN.md 4.6',
+    },
+    'C10': {
+        'engines': ['kani', 'syntactic'],
+        'technique': 'Kani contracts on the real Subject (next/error/complete/subscribe/unsubscribe vs SubjectModel) + bounded conformance of Behavior/Replay/Async hand-over + per-subscription frame obligation on observable()',
+        'level_text': 'each Subject operation, on the real type, from pre-states with 1 observer (quick) or 2 observers (thorough), symbolic items, both map iteration orders: delivered to exactly the registered observers once, nothing held after a terminal/unsubscribe; re-entrant unsubscribe; hand-over of the other subject types on concrete call sequences',
+        'level_note': 'bounded in observers (<=2) and history (<=3 items); sequential; no Verus induction over call histories was built for subjects',
+        'design_ref': 'DESIGN.md 4.10',
+    },
+    'C13': {
+        'engines': ['kani', 'syntactic'],
+        'technique': 'Kani bounded call sequences on the real publish/ref_count/replay with a hot instrumented source + frame obligations (no cached observer, per-subscription slots)',
+        'level_text': 'number of source subscriptions, sharing among subscribers, stop on last unsubscribe and replay-from-the-beginning are checked on the real types for concrete call sequences (<=2 subscribers) with symbolic items',
+        'level_note': 'bounded conformance (thorough tier only: each harness costs minutes); quick tier decides only the frame obligations',
+        'design_ref': 'DESIGN.md 4.13',
     },
     'C14': {
         'engines': ['syntactic', 'verus_units'],
